@@ -355,6 +355,87 @@ def history(chk, cl, bk, w, rnd, n_ops):
     return ops, obs, text
 
 
+
+def checksummed_and_strays(chk, gwbin, rnd):
+    """(a) a completion refused for its full-object checksum leaves the object stored under the key exactly as it was and the upload
+    completable; (b) ListMultipartUploads shows the uploads in progress and nothing else, also after refused part uploads."""
+    import base64, binascii, hashlib, struct
+    from vlib import chunkenc, e2e
+    def b64crc(kind, data):
+        return base64.b64encode(struct.pack(">I", (binascii.crc32(data) & 0xFFFFFFFF) if kind == "crc32" else chunkenc.crc32c(data))).decode()
+    for label, cfg in (("xattr", {"iam": False}), ("sidecar", {"iam": False, "meta": "sidecar"}), ("named-temp", {"iam": False, "otmp": False}), ("versioned", {"iam": False, "versioning": True})):
+        with gw.Site(cfg, name="c08x") as site:
+            g = site.gateway(gwbin)
+            cl = s3c.Client(g.port, "root", "rootsecret")
+            chk.require(cl.req("PUT", "/bkx").status == 200, "c08:setup", "CreateBucket failed")
+            if label == "versioned":
+                cl.req("PUT", "/bkx", query={"versioning": ""}, body=b"<VersioningConfiguration><Status>Enabled</Status></VersioningConfiguration>")
+            n = 0
+            for kind in ("crc32", "crc32c"):
+                for ctype in ("FULL_OBJECT",):
+                    n += 1; key = "ck%d" % n; path = "/bkx/" + key
+                    old = b"stored-before-%d" % n
+                    chk.require(cl.req("PUT", path, body=old, headers={"content-type": "old/type", "x-amz-meta-old": "1", "x-amz-tagging": "old=1"}).status == 200, "c08:setup", "initial PUT failed")
+                    def state():
+                        gr = cl.req("GET", path); tg = cl.req("GET", path, query={"tagging": ""})
+                        lv = cl.req("GET", "/bkx", query={"versions": "", "prefix": key}) if label == "versioned" else None
+                        nver = len(lv.xml().findall("Version")) if lv is not None and lv.status == 200 and lv.xml() is not None else None
+                        return (gr.status, gr.body, (gr.headers.get("etag") or "").strip('"'), gr.headers.get("content-type"), tuple(sorted(e2e.meta_of(gr.headers).items())),
+                                tuple(sorted((t.findtext("Key"), t.findtext("Value")) for t in tg.xml().iter("Tag"))) if tg.status == 200 and tg.xml() is not None else None, nver)
+                    before = state()
+                    r0 = cl.req("POST", path, query={"uploads": ""}, headers={"x-amz-checksum-algorithm": kind.upper(), "x-amz-checksum-type": ctype, "content-type": "new/type", "x-amz-meta-new": "2"})
+                    if r0.status != 200:
+                        chk.count("checksummed-create-refused:%s:%s:%d" % (kind, ctype, r0.status)); continue
+                    uid = r0.xml().findtext("UploadId"); part = b"part-of-" + key.encode() * 50
+                    psum = b64crc(kind, part)
+                    rp = cl.req("PUT", path, query={"partNumber": "1", "uploadId": uid}, body=part, headers={"x-amz-checksum-" + kind: psum})
+                    full = psum if ctype == "FULL_OBJECT" else base64.b64encode(struct.pack(">I", (binascii.crc32(base64.b64decode(psum)) & 0xFFFFFFFF) if kind == "crc32" else chunkenc.crc32c(base64.b64decode(psum)))).decode() + "-1"
+                    wrongv = b64crc(kind, part + b"x") + ("" if ctype == "FULL_OBJECT" else "-1")
+                    xml = ("<CompleteMultipartUpload><Part><PartNumber>1</PartNumber><ETag>%s</ETag><Checksum%s>%s</Checksum%s></Part></CompleteMultipartUpload>" % (rp.headers.get("etag", ""), kind.upper(), psum, kind.upper())).encode()
+                    rc = cl.req("POST", path, query={"uploadId": uid}, body=xml, headers={"x-amz-checksum-" + kind: wrongv, "x-amz-checksum-type": ctype})
+                    after = state()
+                    chk.case(("refused-checksummed-completion", label, kind, ctype), True); chk.traces += 1
+                    chk.count("checksummed-completion:%s:%s:%s:%d" % (label, kind, ctype, rc.status))
+                    row = {"config": label, "algorithm": kind, "checksum_type": ctype, "upload_part": rp.status, "completion_status": rc.status, "completion_code": rc.code,
+                           "object_before": (before[0], len(before[1])) + before[2:], "object_after": (after[0], len(after[1])) + after[2:]}
+                    if rc.status == 200:
+                        chk.fail("c08:completion-with-wrong-checksum-accepted:%s" % kind, "[%s] CompleteMultipartUpload with an x-amz-checksum-%s that does not match the assembled object (%s) was acknowledged" % (label, kind, ctype), row)
+                    elif after != before:
+                        chk.fail("c08:failed-completion-changed-object:%s" % label, "[%s] a CompleteMultipartUpload refused with %d %s (wrong x-amz-checksum-%s, %s) changed the object stored under the key: before %s, after %s" % (
+                            label, rc.status, rc.code, kind, ctype, row["object_before"], row["object_after"]), row)
+                    # the upload is still there and completes with the right checksum
+                    rok = cl.req("POST", path, query={"uploadId": uid}, body=xml, headers={"x-amz-checksum-" + kind: full, "x-amz-checksum-type": ctype})
+                    gr2 = cl.req("GET", path)
+                    chk.count("checksummed-completion-right:%s:%s:%s:%d:%s" % (label, kind, ctype, rok.status, rc.code))
+                    if rc.status != 200 and (rok.status != 200 or gr2.body != part):
+                        chk.fail("c08:upload-lost-after-failed-completion:%s" % label, "[%s] after the refused completion (%d %s) the same upload completed with the right x-amz-checksum-%s answers %d %s; the key then holds %d bytes" % (
+                            label, rc.status, rc.code, kind, rok.status, rok.code, len(gr2.body)), dict(row, second_completion=rok.status, second_code=rok.code))
+                    cl.req("DELETE", path, query={"uploadId": uid})
+            # (b) strays
+            ids = set()
+            for i in range(3):
+                r0 = cl.req("POST", "/bkx/stray%d" % (i % 2), query={"uploads": ""}); ids.add(("stray%d" % (i % 2), r0.xml().findtext("UploadId")))
+            k0, u0 = sorted(ids)[0]
+            cl.req("PUT", "/bkx/" + k0, query={"partNumber": "1", "uploadId": u0}, body=b"good-part")
+            refused = [cl.req("PUT", "/bkx/" + k0, query={"partNumber": "2", "uploadId": u0}, body=b"bad", headers={"Content-MD5": "AAAAAAAAAAAAAAAAAAAAAA=="}).status,
+                       cl.req("PUT", "/bkx/" + k0, query={"partNumber": "3", "uploadId": u0}, body=b"declared-longer", send_body=b"decl", content_length=15, timeout=3).status,
+                       cl.req("PUT", "/bkx/" + k0, query={"partNumber": "4", "uploadId": u0}, body=b"bad", headers={"x-amz-checksum-crc32": "AAAAAA=="}).status]
+            def listed():
+                lu = cl.req("GET", "/bkx", query={"uploads": ""})
+                return set((u.findtext("Key"), u.findtext("UploadId")) for u in lu.xml().findall("Upload")) if lu.status == 200 and lu.xml() is not None else None
+            l1 = listed()
+            chk.case(("stray-uploads", label, "in-progress"), True); chk.traces += 1
+            if l1 != ids:
+                chk.fail("c08:list-uploads-differs:%s" % label, "[%s] after refused part uploads (%s) ListMultipartUploads shows %s; the uploads in progress are %s" % (label, refused, sorted(l1 or []), sorted(ids)),
+                         {"config": label, "refused_part_uploads": refused, "listed": sorted(l1 or []), "in_progress": sorted(ids)})
+            for k_, u_ in sorted(ids):
+                cl.req("DELETE", "/bkx/" + k_, query={"uploadId": u_})
+            l2 = listed()
+            chk.case(("stray-uploads", label, "all-aborted"), True); chk.traces += 1
+            if l2:
+                chk.fail("c08:list-uploads-differs:%s" % label, "[%s] after every upload was aborted ListMultipartUploads still shows %s" % (label, sorted(l2)), {"config": label, "listed": sorted(l2)})
+            chk.tie("gateway still running (%s, checksummed completions)" % label, g.alive(), g.log_tail())
+
 def canon_obs(o):
     if o[0] == "get": return ("get", o[1], o[2], o[3], o[4])
     if o[0] == "part": return ("part", o[1])
@@ -397,6 +478,7 @@ def run(chk):
                 import shutil, os
                 shutil.rmtree(os.path.join(site.root, bk), ignore_errors=True)
             chk.tie("gateway still running (%s)" % label, g.alive(), g.log_tail())
+    checksummed_and_strays(chk, gwbin, rnd)
     if not built:
         return
     text = ("From Coq Require Import String List ZArith Bool.\nFrom VGW Require Import Base.GoStr Model.Multipart Check.MultipartCheck.\n"
